@@ -4,13 +4,14 @@ package textwire
 
 import "github.com/textwire/textwire/v2/config"
 
-const c16Names = 8
+const c16Names = 9
 
 type c16Result struct {
 	out, err, body string
 }
 
 var c16ErrorPage = "err"
+var c16Debug = false
 
 func c16Tree() *Template {
 	vfsReset()
@@ -20,20 +21,21 @@ func c16Tree() *Template {
 	vfsWriteFile("templates/ok.tw", "@use(\"~main\")@insert(\"r\")@each(v in vs)@component(\"~card\", {t: v})@end@end")
 	vfsWriteFile("templates/bad.tw", "head{{ 1 / d > 0 ? 'p' : 'n' }}")
 	vfsWriteFile("templates/err.tw", "Custom oops")
+	vfsWriteFile("templates/shuf.tw", "{{ vs.shuffle().len() }}{{ vs.shuffle().contains(\"z\") }}")
 	// fails in the second pass of either loop for some divisors, after the first pass has produced text
 	vfsWriteFile("templates/rows.tw", "@each(v in vs)[{{ v }}{{ d == loop.index ? nope : \"p\" }}]@end@for(i = 0; i < 3; i++)({{ d == i + 10 ? nope : \"q\" }})@end")
 	vfsWriteFile("plain.txt", "file {{ d > 0 ? 'p' : 'n' }}")
 	vfsWriteFile("templates/prof.tw", "<{{ u.name }}>")
 	vfsWriteFile("templates/setter.tw", "{{ h = \"H\" }}[{{ h }}]")
 	vfsWriteFile("templates/reader.tw", "({{ h }})")
-	tpl, err := NewTemplate(&config.Config{TemplateDir: "templates", TemplateExt: ".tw", ErrorPagePath: c16ErrorPage})
+	tpl, err := NewTemplate(&config.Config{TemplateDir: "templates", TemplateExt: ".tw", ErrorPagePath: c16ErrorPage, DebugMode: c16Debug})
 	vAssert(err == nil && tpl != nil, "tree-loads")
 	return tpl
 }
 
 // c16Op runs one of the rendering operations; name and data are chosen by the caller.
 func c16Op(tpl *Template, op, name int, d int64, s string) c16Result {
-	names := []string{"ok", "bad", "missing", "prof", "prof", "setter", "reader", "rows"}
+	names := []string{"ok", "bad", "missing", "prof", "prof", "setter", "reader", "rows", "shuf"}
 	data := map[string]any{"vs": []any{s, "z"}, "d": d}
 	switch name {
 	case 3:
@@ -70,6 +72,18 @@ func c16Op(tpl *Template, op, name int, d int64, s string) c16Result {
 		r := c16Result{body: strip(string(w.buf))}
 		if err != nil {
 			r.err = strip(err.Error())
+			if c16Debug {
+				// in debug mode the page written for a failure shows that failure: a result served from an earlier
+				// call (of this or of another Template) would show another one
+				msg := err.Error()
+				for i := 0; i < len(msg); i++ {
+					if msg[i] == '\n' {
+						msg = msg[i+1:]
+						break
+					}
+				}
+				vAssert(hasSub(string(w.buf), msg), "debug-page-shows-the-failure-it-reports")
+			}
 		}
 		return r
 	case 2:
@@ -92,7 +106,7 @@ func c16Op(tpl *Template, op, name int, d int64, s string) c16Result {
 func c16Snapshot(tpl *Template) string {
 	out := userConfig.TemplateDir + "|" + userConfig.TemplateExt + "|" + userConfig.ErrorPagePath + "|" + b01(userConfig.DebugMode) + "|"
 	out += string([]byte{byte('0' + len(customFunc.Str) + len(customFunc.Arr) + len(customFunc.Int) + len(customFunc.Float) + len(customFunc.Bool))})
-	for _, n := range []string{"ok", "bad", "err", "prof", "setter", "reader", "rows"} {
+	for _, n := range []string{"ok", "bad", "err", "prof", "setter", "reader", "rows", "shuf"} {
 		if p, ok := tpl.programs[n]; ok {
 			out += "|" + n + "=" + p.String()
 		}
@@ -107,7 +121,9 @@ func c16Same(a, b c16Result) bool {
 // HarnessC16History: the result of a probe operation is the same whatever operations ran before it, and no
 // operation stores to the loaded templates, the configuration, the registry or package state.
 func HarnessC16History() {
-	c16ErrorPage = []string{"err", "errbad"}[vChoice("error-page", 2)]
+	cfgChoice := vChoice("error-page", 3)
+	c16ErrorPage = []string{"err", "errbad", "err"}[cfgChoice]
+	c16Debug = cfgChoice == 2 // debug mode: the built-in page shows the failure's own message, path and line
 	fresh := c16Tree() // the probe on this freshly loaded Template is the baseline
 	tpl := c16Tree()   // the history and the second probe run on this one
 	s := string([]byte{vByte("s")})
